@@ -138,6 +138,9 @@ var c17JobPool = map[string]*jobSpec{
 // other URL settings and relabel rules (a reload may change a job it keeps).
 func c17Variant(name string) *jobSpec {
 	base := strings.SplitN(name, "#", 2)[0]
+	if c17JobPool[base] == nil {
+		return &jobSpec{Name: base} // "m00" ... : one of many plain jobs
+	}
 	j := *c17JobPool[base]
 	if strings.HasSuffix(name, "#1") {
 		j.Path = "/variant" + j.Path
@@ -461,13 +464,13 @@ func runC17(rec *vkit.Recorder, c *c17Case) []vkit.Violation {
 			setMustHave(keep)
 			select {
 			case sdCh <- sd:
-			case <-time.After(10 * time.Second):
-				add("C17/harness", "update not accepted")
+			case <-time.After(30 * time.Second):
+				add("C17/update-never-taken", "step %d: the discovery loop did not take the update of %d jobs within 30s", i, len(sd))
 			}
 			select {
 			case <-forwarded:
-			case <-time.After(10 * time.Second):
-				add("C17/harness", "update not forwarded")
+			case <-time.After(30 * time.Second):
+				add("C17/update-never-published", "step %d: the update of %d jobs was not published within 30s (the translation of an update takes milliseconds)", i, len(sd))
 			}
 			if op.HasDuring {
 				hook.mu.Lock()
@@ -588,6 +591,9 @@ func runC17(rec *vkit.Recorder, c *c17Case) []vkit.Violation {
 			cls = append(cls, "reload-via-"+c.Via)
 		}
 	}
+	if len(c.Initial) >= 15 {
+		cls = append(cls, "configuration-with-15-to-40-jobs")
+	}
 	rec.Eval(nt, vkit.Digest(string(b)), cls...)
 	rec.ClassN("reader-polls", int(atomic.LoadInt64(&polls)))
 	return vs
@@ -617,6 +623,15 @@ func genC17(t *rapid.T) *c17Case {
 		return out
 	}
 	c := &c17Case{Initial: subset("init")}
+	many := rapid.IntRange(0, 11).Draw(t, "manyJobs") == 0
+	if many {
+		// a configuration with dozens of jobs: every update carries all of them
+		c.Initial = nil
+		for i, n := 0, rapid.IntRange(15, 40).Draw(t, "nManyJobs"); i < n; i++ {
+			c.Initial = append(c.Initial, fmt.Sprintf("m%02d", i))
+		}
+		all = append([]string{}, c.Initial[:3]...)
+	}
 	c.Via = []string{"", "file", "symlink", "samestat"}[pick(t, "via", 40, 15, 30, 15)]
 	cur := c.Initial
 	n := rapid.IntRange(1, 12).Draw(t, "nOps")
@@ -633,6 +648,10 @@ func genC17(t *rapid.T) *c17Case {
 				}
 				if rapid.IntRange(0, 5).Draw(t, l+"-empty-"+j) == 0 {
 					op.Update[j] = []grpSpec{}
+					continue
+				}
+				if len(cur) > 8 {
+					op.Update[j] = genGroups(t, l+"-"+j, 1, 2, true)
 					continue
 				}
 				op.Update[j] = genGroups(t, l+"-"+j, 2, 3, true)
